@@ -43,6 +43,11 @@ def setup(J):
                         items = 1 if q else 2
                         jobs.append(J.with_delay_fallback(J.wf("C16", g, items, 1, 2, "func", oracles=["nohang", "clean", "c04", "c05", "c16-runto"], tier=tier, events_dep=False,
                                                                runto=list(sub), runtohow=how, budget=(20 if q else 120), id=f"C16-runto-{g}-{'+'.join(sub)}-{how}")))
+        # shell-command bodies: unwired ports, one RunTo target per graph
+        for g, e in (("g3", 0), ("g7", 1), ("g8", 1)) if q else ():
+            jobs.append(J.with_delay_fallback(J.wf("C16", g, 1, 1, 2, "cmd", oracles=["nohang", "c16-unwired"], tier=tier, events_dep=False, omit_edge=e, id=f"C16-unwired-{g}-e{e}-cmd")))
+        for g, targets in (("g3", ["p"]), ("g4", ["q"]), ("g8b", ["p"]), ("g11", ["p"]), ("g5", ["src"]), ("g7", ["q"])):
+            jobs.append(J.with_delay_fallback(J.wf("C16", g, 1, 1, 2, "cmd", oracles=["nohang", "clean", "c04", "c05", "c16-runto"], tier=tier, events_dep=False, runto=targets, runtohow="name", budget=(20 if q else 120), id=f"C16-runto-{g}-{'+'.join(targets)}-name-cmd")))
         # regular expressions are independent of each other; no patterns = nothing to run (refused)
         for g, targets in (("g4", ["q"]), ("g4", ["p"]), ("g7", ["r"]), ("g3", ["p"])):
             jobs.append(J.with_delay_fallback(J.wf("C16", g, 1, 1, 2, "func", oracles=["nohang", "clean", "c04", "c05", "c16-runto"], tier=tier, events_dep=False, runto=targets, runtohow="regex-ci", budget=20, id=f"C16-runto-{g}-{'+'.join(targets)}-regex-ci")))
